@@ -14,7 +14,7 @@ import time
 
 import ufl
 import ufl.classes as C
-from ufl import (Coefficient, FunctionSpace, Identity, as_ufl, curl, div, dot, grad, inner, tr)
+from ufl import (as_vector, Coefficient, FunctionSpace, Identity, as_ufl, curl, div, dot, grad, inner, tr)
 from ufl.classes import (ComponentTensor, Indexed, IndexSum, Jacobian, JacobianDeterminant,
                          JacobianInverse, MultiIndex)
 from ufl.core.multiindex import FixedIndex, Index
@@ -120,6 +120,10 @@ def build(spec):
             "shadow/outer-factor-free-in-inner-bound": lambda: isum(P(idx(K, i, k), isum(P(idx(J, k, i), idx(vt, i)), i)), k),
             "shadow/outer-factor-free-in-inner-bound-J": lambda: isum(P(idx(J, i, k), isum(P(idx(K, k, i), idx(vg, i)), i)), k),
             "shadow/delta-into-inner-bound": lambda: isum(P(idx(Identity(t), i, k), isum(P(idx(Att, k, i), idx(vt, i)), i)), k),
+            # the free index sits in the *base* of the indexed factor (a list tensor whose entries carry it)
+            "shadow/listtensor-base-free-in-inner-bound": lambda: isum(P(
+                idx(as_vector([idx(vt, j) * (n_ + 1) for n_ in range(t)]), k),
+                isum(P(P(isum(P(idx(K, i, l), idx(J, l, k)), l), idx(vt, j)), idx(vt, j)), j)), k),
             # Identity contractions
             "delta/contract": lambda: isum(isum(P(idx(Identity(t), i, j), idx(Att, i, j)), j), i),
             "delta/fixed": lambda: P(idx(Identity(t), 0, 0), f) + P(idx(Identity(t), 0, t - 1), f),
@@ -166,7 +170,7 @@ def run(spec):
     return res
 
 
-SEED_KEYS = ["shadow/outer-factor-free-in-inner-bound", "shadow/outer-factor-free-in-inner-bound-J", "shadow/delta-into-inner-bound", "KJ/basic", "KJ/with-factor", "KJ/trace", "KJ/fixed", "JK/basic", "JK/vector", "JK/trace",
+SEED_KEYS = ["shadow/listtensor-base-free-in-inner-bound", "shadow/outer-factor-free-in-inner-bound", "shadow/outer-factor-free-in-inner-bound-J", "shadow/delta-into-inner-bound", "KJ/basic", "KJ/with-factor", "KJ/trace", "KJ/fixed", "JK/basic", "JK/vector", "JK/trace",
              "KJ/interchanged", "KJ/inner-sum-factor", "reuse/two-contractions-same-k",
              "reuse/two-contractions-free", "delta/contract", "delta/fixed", "delta/vector", "delta/alone",
              "noncontract/KK", "noncontract/JtJ", "noncontract/KtKt"]
